@@ -33,15 +33,19 @@ IkeKeyNames == << "sk_d", "sk_ai", "sk_ar", "sk_ei", "sk_er", "sk_pi", "sk_pr" >
 RECURSIVE SumTo(_, _)
 SumTo(s, i) == IF i = 0 THEN 0 ELSE s[i] + SumTo(s, i - 1)
 
-IkeKeyDefs(su, ni_nr, secret, spii, spir) ==
+\* (px: a name prefix, so that one vector can hold the definitions of several derivations)
+IkeKeyDefsP(px, su, ni_nr, secret, spii, spir) ==
   LET lens == IkeKeyLens(su) total == SumTo(lens, 7) IN
-  << [n |-> "skeyseed", t |-> Hmac(su.prf, ni_nr, secret)] >>
-  \o PrfPlusDefs("T", su.prf, Var("skeyseed", HashLen(su.prf)), Cat(<< ni_nr, spii, spir >>), total)
-IkeKeyTerms(su) ==
-  LET lens == IkeKeyLens(su) total == SumTo(lens, 7) stream == PrfPlusStream("T", su.prf, total) IN
+  << [n |-> px \o "skeyseed", t |-> Hmac(su.prf, ni_nr, secret)] >>
+  \o PrfPlusDefs(px \o "T", su.prf, Var(px \o "skeyseed", HashLen(su.prf)), Cat(<< ni_nr, spii, spir >>), total)
+IkeKeyTermsP(px, su) ==
+  LET lens == IkeKeyLens(su) total == SumTo(lens, 7) stream == PrfPlusStream(px \o "T", su.prf, total) IN
   [i \in 1..7 |-> Slice(stream, SumTo(lens, i - 1), lens[i])]
-IkeKeyRec(su) == LET ts == IkeKeyTerms(su) IN
+IkeKeyRecP(px, su) == LET ts == IkeKeyTermsP(px, su) IN
   [sk_d |-> ts[1], sk_ai |-> ts[2], sk_ar |-> ts[3], sk_ei |-> ts[4], sk_er |-> ts[5], sk_pi |-> ts[6], sk_pr |-> ts[7]]
+IkeKeyDefs(su, ni_nr, secret, spii, spir) == IkeKeyDefsP("", su, ni_nr, secret, spii, spir)
+IkeKeyTerms(su) == IkeKeyTermsP("", su)
+IkeKeyRec(su) == IkeKeyRecP("", su)
 
 \* Child SA keys (RFC 7296 2.17): encrLen / integLen in octets (integLen = 0 when no integrity is negotiated)
 ChildKeyDefs(pfx, prf, skd, ni_nr, encrLen, integLen) == PrfPlusDefs(pfx, prf, skd, ni_nr, 2 * (encrLen + integLen))
@@ -52,9 +56,11 @@ ChildKeyRec(pfx, prf, encrLen, integLen) ==
 
 \* EAP-AKA' (RFC 5448 3.3, 3.4.1; RFC 9048): PRF'(IK'|CK', "EAP-AKA'"|Identity), 208 octets
 AkaLabel == << 69, 65, 80, 45, 65, 75, 65, 39 >>      \* "EAP-AKA'"
-PrfPrimeDefs(ik, ck, identity) == PrfPlusDefs("M", "sha256", Cat(<< ik, ck >>), Cat(<< Lit(AkaLabel), identity >>), 208)
-PrfPrimeRec ==
-  LET stream == PrfPlusStream("M", "sha256", 208) IN
+PrfPrimeDefsP(px, ik, ck, identity) == PrfPlusDefs(px \o "M", "sha256", Cat(<< ik, ck >>), Cat(<< Lit(AkaLabel), identity >>), 208)
+PrfPrimeRecP(px) ==
+  LET stream == PrfPlusStream(px \o "M", "sha256", 208) IN
   [k_encr |-> Slice(stream, 0, 16), k_aut |-> Slice(stream, 16, 32), k_re |-> Slice(stream, 48, 32),
    msk |-> Slice(stream, 80, 64), emsk |-> Slice(stream, 144, 64)]
+PrfPrimeDefs(ik, ck, identity) == PrfPrimeDefsP("", ik, ck, identity)
+PrfPrimeRec == PrfPrimeRecP("")
 =============================================================================
